@@ -234,13 +234,13 @@ Proof. exact coarse_crash_then_tick_sym. Qed.
 Print Assumptions C11_any_clock_invariant_restored_after_the_kill.
 
 Theorem C11_any_clock_every_history_with_kills : forall mode (t0 : N) (kops : list (kop sym)),
-  (0 < t0)%N -> confined_khistory_sym (init_world mode t0) kops ->
+  confined_khistory_sym (init_world mode t0) kops ->
   coarse_inv_sym (fold_left apply_kop_sym kops (init_world mode t0)).
 Proof. exact coarse_inv_every_history_with_kills_sym. Qed.
 Print Assumptions C11_any_clock_every_history_with_kills.
 
 Theorem C11_any_clock_crash_point_after_a_history_with_kills : forall mode (t0 : N) (kops : list (kop sym)) goal k,
-  (0 < t0)%N -> confined_khistory_sym (init_world mode t0) kops ->
+  confined_khistory_sym (init_world mode t0) kops ->
   build_confined sym (fold_left apply_kop_sym kops (init_world mode t0)) goal ->
   let w := fold_left apply_kop_sym kops (init_world mode t0) in
   pre_inv_sym (run_acts_sym (firstn k (build_acts_sym w RULES_PATH goal)) w).
